@@ -50,6 +50,8 @@ type Registry struct {
 	// hash.
 	ValueBuf, NameBuf bytes.Buffer
 	Hasher            hash.Hash64
+	// help string of the first vector created for a metric name
+	help map[string]string
 }
 
 func NewRegistry(reg prometheus.Registerer, mapper *mapper.MetricMapper) *Registry {
@@ -58,7 +60,24 @@ func NewRegistry(reg prometheus.Registerer, mapper *mapper.MetricMapper) *Regist
 		Metrics:    make(map[string]metrics.Metric),
 		Mapper:     mapper,
 		Hasher:     fnv.New64a(),
+		help:       make(map[string]string),
 	}
+}
+
+// helpFor returns the help string for a new vector of metricName. All vectors
+// of one metric name have to carry the same help string, otherwise the
+// Prometheus registry fails every scrape ("has help X but should have Y"). Two
+// mappings can give one name different help strings, and a reload can change
+// it, so the help of the first vector created for the name wins.
+func (r *Registry) helpFor(metricName, help string) string {
+	if r.help == nil {
+		r.help = make(map[string]string)
+	}
+	if first, ok := r.help[metricName]; ok {
+		return first
+	}
+	r.help[metricName] = help
+	return help
 }
 
 func (r *Registry) MetricConflicts(metricName string, metricType metrics.MetricType) bool {
@@ -203,7 +222,7 @@ func (r *Registry) GetCounter(metricName string, labels prometheus.Labels, help 
 		metricsCount.WithLabelValues("counter").Inc()
 		counterVec = prometheus.NewCounterVec(prometheus.CounterOpts{
 			Name: metricName,
-			Help: help,
+			Help: r.helpFor(metricName, help),
 		}, labelNames)
 
 		if err := r.Registerer.Register(uncheckedCollector{counterVec}); err != nil {
@@ -273,7 +292,7 @@ func (r *Registry) GetGauge(metricName string, labels prometheus.Labels, help st
 		metricsCount.WithLabelValues("gauge").Inc()
 		gaugeVec = prometheus.NewGaugeVec(prometheus.GaugeOpts{
 			Name: metricName,
-			Help: help,
+			Help: r.helpFor(metricName, help),
 		}, labelNames)
 
 		if err := r.Registerer.Register(uncheckedCollector{gaugeVec}); err != nil {
@@ -330,7 +349,7 @@ func (r *Registry) GetHistogram(metricName string, labels prometheus.Labels, hel
 		}
 		histogramVec = prometheus.NewHistogramVec(prometheus.HistogramOpts{
 			Name:                           metricName,
-			Help:                           help,
+			Help:                           r.helpFor(metricName, help),
 			Buckets:                        buckets,
 			NativeHistogramBucketFactor:    bucketFactor,
 			NativeHistogramMaxBucketNumber: maxBuckets,
@@ -400,7 +419,7 @@ func (r *Registry) GetSummary(metricName string, labels prometheus.Labels, help 
 		}
 		summaryVec = prometheus.NewSummaryVec(prometheus.SummaryOpts{
 			Name:       metricName,
-			Help:       help,
+			Help:       r.helpFor(metricName, help),
 			Objectives: objectives,
 			MaxAge:     summaryOptions.MaxAge,
 			AgeBuckets: summaryOptions.AgeBuckets,
